@@ -189,6 +189,7 @@ class Report(object):
         self.rule = ""
         self.assumptions = []
         self.exhaustive = None
+        self.minimiser = None     # callable(finding) -> smaller finding, applied to the one written as replay file
         self.known = load_known()
 
     def add_counts(self, d, into=None):
@@ -284,10 +285,20 @@ class Report(object):
                 groups.setdefault((f["property"], f["rule"], f.get("witness")), []).append(f)
             for key, fs in sorted(groups.items(), key=repr):
                 fs.sort(key=lambda f: len(json.dumps(f, default=str)))
-                path = self.write_replay(fs[0])
+                f0 = fs[0]
+                if self.minimiser is not None and len(groups) <= 12:
+                    try:
+                        f0 = self.minimiser(f0)
+                    except Exception as e:   # the unminimised case is still a valid replay
+                        f0 = dict(f0)
+                        f0["minimised"] = {"note": "minimiser failed: %r" % (e,)}
+                path = self.write_replay(f0)
                 print("VIOLATION property=%s replay=%s" % (key[0], path))
                 print("  rule=%s witness=%s runs=%d detail=%s" % (key[1], key[2], len(fs),
-                                                                  str(fs[0].get("detail"))[:600]))
+                                                                  str(f0.get("detail"))[:600]))
+                if f0.get("minimised"):
+                    print("  minimised: %s" % json.dumps(f0["minimised"]))
+                print("  replay in a fresh process: %s" % confirm_replay(self.prop, path))
             code = 1
         if self.harness_errors:
             for h in self.harness_errors[:5]:
@@ -300,6 +311,31 @@ class Report(object):
             self.prop, tier(), self.evaluations, len(self.distinct), len(self.violations),
             sum(self.known_hits.values()), wall))
         return code
+
+
+def digest_note(rec, same):
+    """Text saying whether the replayed run's event-log digest equals the one recorded in the replay file."""
+    want = rec.get("digest")
+    got = [f.get("digest") for f in same if f.get("digest")]
+    if not want or not got:
+        return ""
+    return " (event-log digest %s)" % ("identical" if want in got else "DIFFERS: recorded %s, replayed %s" % (want[:12], got[0][:12]))
+
+
+def confirm_replay(prop, path):
+    """Replays the file with the check's own --replay in a fresh interpreter: it must fail the same way (exit 1)."""
+    import subprocess
+    env = dict(os.environ)
+    env["PYTHONPATH"] = VERIF
+    env.setdefault("PYTHONHASHSEED", "0")
+    try:
+        p = subprocess.run([sys.executable, "-m", "checks.%s" % prop.lower(), "--replay", path], cwd=VERIF, env=env,
+                           stdout=subprocess.PIPE, stderr=subprocess.STDOUT, timeout=600)
+    except Exception as e:
+        return "could not be run (%r)" % (e,)
+    if p.returncode == 1:
+        return "reproduced"
+    return "NOT reproduced (exit %d): %s" % (p.returncode, p.stdout.decode("utf8", "replace")[-200:].strip())
 
 
 def summarize_run(res, prop, findings, nontrivial=True, sample=None, extra_probes=None, scenario_hash=None):
@@ -318,5 +354,6 @@ def summarize_run(res, prop, findings, nontrivial=True, sample=None, extra_probe
         "probes": dict(extra_probes or {}),
         "findings": findings,
         "sample": sample,
+        "digest": sim.hexdigest(),
     }
     return out
